@@ -131,6 +131,16 @@ def run(ctx):
             except Exception as e:  # noqa
                 fails.append(Failure("oracle", None, "get_provn raised %r" % (e,), {"ops": list(w.ops)}))
                 continue
+            # "the PROV-N text produced for any document": the writer registered as format 'provn' hands back the same text
+            try:
+                text2 = doc.serialize(format="provn")
+            except Exception as e:  # noqa
+                text2 = None
+                fails.append(Failure("oracle", None, "serialize(format='provn') raised %r where get_provn() answers" % (e,), {"ops": list(w.ops)}))
+            if text2 is not None and text2 != text:
+                k_ = next((i_ for i_ in range(min(len(text), len(text2))) if text[i_] != text2[i_]), min(len(text), len(text2)))
+                fails.append(Failure("oracle", None, "serialize(format='provn') returns another text than get_provn() (first difference at "
+                                     "offset %d: %r vs %r)" % (k_, text2[k_:k_ + 12], text[k_:k_ + 12]), {"ops": list(w.ops)}))
             batch.append((w, doc, text))
             ctx.evaluations += 1
             if len(doc.records) >= 2:
